@@ -50,7 +50,7 @@ def expect(g, tb, data, skip_ws=True, skip_nl=True, ctx_mode=None, matchers=None
     lx = lex(g, data, skip_ws, skip_nl, matchers)
     toks = [t[0] for t in lx.toks]
     if lx.lexerr is not None: toks.append(LEXERR)
-    res = ref_lr1.parse(tb, toks, recover=g.has_error())
+    res = ref_lr1.parse(tb, toks, recover=True)
     ex = Expected(); ex.lex = lx; ex.res = res; ex.ok = res.ok
     def tokpos(p):
         if p < len(lx.toks): return lx.toks[p][3], lx.toks[p][4]
@@ -143,47 +143,88 @@ def positions(events):
     return [(m.group(1), int(m.group(2)), int(m.group(3))) for m in _POS.finditer(events)]
 
 # -------------------------------------------------------------------------------------------------
-def match_tables(g, tb, dg):
-    """Match the library's states (parsed diag) to the reference states by walking both automata from
-    state 0 over equal symbol names. Returns (lib->ref map, list of difference strings)."""
+def match_tables(g, tb, dg, dump=None):
+    """Match the library's states (parsed diagnostics) to the reference states by their item sets
+    (canonical LR(1) states are identified by their items) and compare transitions and cells.
+    States that the reference reaches only through a shift that a conflict resolution removed (or
+    through an R/R cell, whose treatment is undefined) are optional. Returns (lib->ref map, diffs)."""
     diffs = []
-    names = {}   # symbol name -> symbol
+    names = {}
     for i, n in enumerate(g.nts): names.setdefault(n, []).append(('n', i))
     for j in range(g.T): names.setdefault(g.tname(j), []).append(('t', j))
     names.setdefault('<error_recovery_token>', []).append(('e',))
     names.setdefault('<eof>', []).append(('t', g.EOF))
+    names.setdefault('##', []).append(('root',))
     if any(len(v) > 1 for v in names.values()):
         return None, ['ambiguous symbol names; table comparison skipped']
-    sym = {k: v[0] for k, v in names.items()}
-    lib = {s['idx']: s for s in dg.states}
-    if 0 not in lib: return None, ['no state 0 in diagnostics']
-    m = {0: 0}; work = [0]
     def item_text(it):
         ri, dot, la = it
         lhs = '##' if ri == tb.R else g.nts[tb.lhs[ri]]
         return (lhs, tuple(g.symname(s) for s in tb.rhs[ri]), dot, g.tname(la))
-    while work:
-        ls = work.pop(); rs = m[ls]; L = lib[ls]
-        want = sorted(item_text(it) for it in tb.states[rs])
-        got = sorted(L['items'])
-        if want != got:
-            miss = [x for x in want if x not in got]; extra = [x for x in got if x not in want]
-            diffs.append('state %d (ref %d): items differ: missing %s extra %s' % (ls, rs, miss[:3], extra[:3]))
-        edges = {}
-        for nm, j in L['goto'].items(): edges[nm] = j
-        for nm, a in L['act'].items():
-            if a[0] == 'sh': edges[nm] = a[1]
+    ref_items = [tuple(sorted(item_text(it) for it in st)) for st in tb.states]
+    by_items = {}
+    for i, k in enumerate(ref_items): by_items.setdefault(k, i)
+    m = {}
+    for L in dg.states:
+        k = tuple(sorted(L['items']))
+        rs = by_items.get(k)
+        if rs is None:
+            kern = frozenset(x for x in k if x[2] > 0 or x[0] == '##')
+            cand = [i for i, ri in enumerate(ref_items) if frozenset(x for x in ri if x[2] > 0 or x[0] == '##') == kern]
+            if cand:
+                miss = sorted(set(ref_items[cand[0]]) - set(k))[:3]; extra = sorted(set(k) - set(ref_items[cand[0]]))[:3]
+                diffs.append('state %d (kernel of reference state %d): items differ: missing %s extra %s' % (L['idx'], cand[0], miss, extra))
+            else:
+                diffs.append('state %d: no reference state has its kernel %s' % (L['idx'], sorted(kern)[:3]))
+        elif rs in m.values():
+            diffs.append('states %d and %d have the same items' % (L['idx'], [a for a, b in m.items() if b == rs][0])); m[L['idx']] = rs
+        else:
+            m[L['idx']] = rs
+    if 0 not in m or m.get(0) != 0: diffs.append('state 0 is not the start state of the reference')
+    # required / optional reference states
+    def edges(rs, certain):
+        for (i, sym), j in tb.goto.items():
+            if i != rs: continue
+            if sym[0] == 'n': yield j; continue
+            t = g.symterm(sym); conf = tb.conflicts.get((rs, t)); cell = tb.cells.get((rs, t))
+            if conf is None: yield j
+            elif conf['kind'] == 'sr':
+                if conf['prefer'] == 'shift': yield j
+            elif not certain: yield j
+    def reach(certain):
+        seen = {0}; work = [0]
+        while work:
+            x = work.pop()
+            for j in edges(x, certain):
+                if j not in seen: seen.add(j); work.append(j)
+        return seen
+    required = reach(True); allowed = reach(False)
+    have = set(m.values())
+    if not required <= have:
+        diffs.append('reference states missing from the diagnostics: %s' % [sorted(ref_items[x])[:2] for x in sorted(required - have)[:2]])
+    if not have <= allowed:
+        diffs.append('diagnostics contain states unreachable in the reference: %s' % sorted(have - allowed)[:3])
+    lib = {s['idx']: s for s in dg.states}
+    for ls, rs in m.items():
+        L = lib[ls]
         refedges = {g.symname(s): j for (i, s), j in tb.goto.items() if i == rs}
-        for nm, j in edges.items():
+        led = dict(L['goto'])
+        for nm, a in L['act'].items():
+            if a[0] == 'sh': led[nm] = a[1]
+            elif a[0] == 'sr-sh' and dump is not None:
+                sy = names.get(nm, [None])[0]
+                if sy is not None and sy[0] != 'n':
+                    c = dump.cells.get((ls, dump.k['nterm_count'] + g.symterm(sy)))
+                    if c: led[nm] = c[1]
+        for nm, j in led.items():
             if nm not in refedges:
                 diffs.append('state %d: transition on %s not in reference' % (ls, nm)); continue
-            if j in m:
-                if m[j] != refedges[nm]: diffs.append('state %d on %s: goes to %d (ref %d) but reference goes to %d' % (ls, nm, j, m[j], refedges[nm]))
-            elif j in lib:
-                m[j] = refedges[nm]; work.append(j)
-            else:
-                diffs.append('state %d on %s: target %d not listed' % (ls, nm, j))
-        # cells
+            if m.get(j) != refedges[nm]:
+                diffs.append('state %d on %s: goes to %s (reference state %s), reference goes to %d' % (ls, nm, j, m.get(j), refedges[nm]))
+        for nm, j in refedges.items():
+            sy = names[nm][0]
+            if sy[0] == 'n' and nm not in L['goto']:
+                diffs.append('state %d: goto on %s missing' % (ls, nm))
         for t in range(g.T + 2):
             nm = g.tname(t)
             ref = tb.cells.get((rs, t)); conf = tb.conflicts.get((rs, t))
@@ -198,16 +239,11 @@ def match_tables(g, tb, dg):
             elif conf['kind'] == 'rr': exp = ('rr',)
             elif conf['kind'] == 'mixed': exp = ('anyconf',)
             elif conf['kind'] == 'acc': exp = ('acc-conflict',)
-            ok = True
             if exp is None: ok = got is None
             elif exp[0] == 'sh': ok = got is not None and got[0] == 'sh'
-            elif exp[0] == 'anyconf': ok = got is not None and got[0] in ('rr', 'sr-red', 'sr-sh')
-            elif exp[0] == 'acc-conflict': ok = got is not None and got[0] in ('rr', 'sr-red', 'sr-sh')
+            elif exp[0] in ('anyconf', 'acc-conflict'): ok = got is not None and got[0] in ('rr', 'sr-red', 'sr-sh')
             else: ok = got == exp
             if not ok:
-                kind = 'cell'
-                if exp and exp[0] == 'acc-conflict': kind = 'acc-conflict'
+                kind = 'acc-conflict' if exp and exp[0] == 'acc-conflict' else 'cell'
                 diffs.append('%s state %d (ref %d) on %s: diagnostics %s, reference %s' % (kind, ls, rs, nm, got, exp if conf is None else (exp, conf)))
-    if len(m) != len(tb.states) or len(lib) != len(tb.states):
-        diffs.append('state count: library %d, matched %d, reference %d' % (len(lib), len(m), len(tb.states)))
     return m, diffs
